@@ -6,8 +6,8 @@
       datagram that is a concatenation of encoded segments;
    3. which fields flush leaves alone;
    4. wire round trip and the header part of input_seg;
-   5. probe_wait is touched by flush only;
-   6. the `state` field is write-only (no transition reads it). *)
+   5. the `state` field is write-only (no transition reads it);
+   6. probe_wait is touched by flush only. *)
 From Coq Require Import ZArith List Bool Lia.
 From KV.Base Require Import Consts Word WordLemmas.
 From KV.Kcp Require Import Kcp Step Net InvBase.
@@ -841,4 +841,724 @@ Proof.
   unfold lv_in_tail, lv_pre. cbv zeta.
   destruct (parse_una (if regular then set_rmt_wnd (i_k a) (s_wnd s) else i_k a) (s_una s)) as [k1 cnt].
   reflexivity.
+Qed.
+
+(* ------------------------------------------------------------------ *)
+(* 5. the `state` field is write-only                                  *)
+(* ------------------------------------------------------------------ *)
+(* lv_ss k st: k with its state field replaced.  Every projection but `state` ignores it, every
+   record update commutes with it (set_timer absorbs it).  The lemmas below are collected in the
+   rewrite database lv_ss; lv_ss is never unfolded in the proofs that use them. *)
+Definition lv_ss (k : kcp) (st : Z) : kcp := set_timer k st (ts_flush k) (updated k).
+
+Lemma lv_ss_conv k st : conv (lv_ss k st) = conv k.
+Proof. reflexivity. Qed.
+Lemma lv_ss_mtu k st : mtu (lv_ss k st) = mtu k.
+Proof. reflexivity. Qed.
+Lemma lv_ss_mss k st : mss (lv_ss k st) = mss k.
+Proof. reflexivity. Qed.
+Lemma lv_ss_snd_una k st : snd_una (lv_ss k st) = snd_una k.
+Proof. reflexivity. Qed.
+Lemma lv_ss_snd_nxt k st : snd_nxt (lv_ss k st) = snd_nxt k.
+Proof. reflexivity. Qed.
+Lemma lv_ss_rcv_nxt k st : rcv_nxt (lv_ss k st) = rcv_nxt k.
+Proof. reflexivity. Qed.
+Lemma lv_ss_ssthresh k st : ssthresh (lv_ss k st) = ssthresh k.
+Proof. reflexivity. Qed.
+Lemma lv_ss_rx_rttvar k st : rx_rttvar (lv_ss k st) = rx_rttvar k.
+Proof. reflexivity. Qed.
+Lemma lv_ss_rx_srtt k st : rx_srtt (lv_ss k st) = rx_srtt k.
+Proof. reflexivity. Qed.
+Lemma lv_ss_rx_rto k st : rx_rto (lv_ss k st) = rx_rto k.
+Proof. reflexivity. Qed.
+Lemma lv_ss_rx_minrto k st : rx_minrto (lv_ss k st) = rx_minrto k.
+Proof. reflexivity. Qed.
+Lemma lv_ss_snd_wnd k st : snd_wnd (lv_ss k st) = snd_wnd k.
+Proof. reflexivity. Qed.
+Lemma lv_ss_rcv_wnd k st : rcv_wnd (lv_ss k st) = rcv_wnd k.
+Proof. reflexivity. Qed.
+Lemma lv_ss_rmt_wnd k st : rmt_wnd (lv_ss k st) = rmt_wnd k.
+Proof. reflexivity. Qed.
+Lemma lv_ss_cwnd k st : cwnd (lv_ss k st) = cwnd k.
+Proof. reflexivity. Qed.
+Lemma lv_ss_incr k st : incr (lv_ss k st) = incr k.
+Proof. reflexivity. Qed.
+Lemma lv_ss_probe k st : probe (lv_ss k st) = probe k.
+Proof. reflexivity. Qed.
+Lemma lv_ss_ts_probe k st : ts_probe (lv_ss k st) = ts_probe k.
+Proof. reflexivity. Qed.
+Lemma lv_ss_probe_wait k st : probe_wait (lv_ss k st) = probe_wait k.
+Proof. reflexivity. Qed.
+Lemma lv_ss_interval k st : interval (lv_ss k st) = interval k.
+Proof. reflexivity. Qed.
+Lemma lv_ss_ts_flush k st : ts_flush (lv_ss k st) = ts_flush k.
+Proof. reflexivity. Qed.
+Lemma lv_ss_nodelay k st : nodelay (lv_ss k st) = nodelay k.
+Proof. reflexivity. Qed.
+Lemma lv_ss_updated k st : updated (lv_ss k st) = updated k.
+Proof. reflexivity. Qed.
+Lemma lv_ss_dead_link k st : dead_link (lv_ss k st) = dead_link k.
+Proof. reflexivity. Qed.
+Lemma lv_ss_fastresend k st : fastresend (lv_ss k st) = fastresend k.
+Proof. reflexivity. Qed.
+Lemma lv_ss_nocwnd k st : nocwnd (lv_ss k st) = nocwnd k.
+Proof. reflexivity. Qed.
+Lemma lv_ss_stream k st : stream (lv_ss k st) = stream k.
+Proof. reflexivity. Qed.
+Lemma lv_ss_snd_queue k st : snd_queue (lv_ss k st) = snd_queue k.
+Proof. reflexivity. Qed.
+Lemma lv_ss_rcv_queue k st : rcv_queue (lv_ss k st) = rcv_queue k.
+Proof. reflexivity. Qed.
+Lemma lv_ss_snd_buf k st : snd_buf (lv_ss k st) = snd_buf k.
+Proof. reflexivity. Qed.
+Lemma lv_ss_rcv_buf k st : rcv_buf (lv_ss k st) = rcv_buf k.
+Proof. reflexivity. Qed.
+Lemma lv_ss_acklist k st : acklist (lv_ss k st) = acklist k.
+Proof. reflexivity. Qed.
+Lemma lv_ss_buflen k st : buflen (lv_ss k st) = buflen k.
+Proof. reflexivity. Qed.
+Lemma lv_ss_state k st : state (lv_ss k st) = st.
+Proof. reflexivity. Qed.
+Lemma lv_ss_set_queues k st a b c d : set_queues (lv_ss k st) a b c d = lv_ss (set_queues k a b c d) st.
+Proof. reflexivity. Qed.
+Lemma lv_ss_set_snd_queue k st a : set_snd_queue (lv_ss k st) a = lv_ss (set_snd_queue k a) st.
+Proof. reflexivity. Qed.
+Lemma lv_ss_set_rcv_queue k st a : set_rcv_queue (lv_ss k st) a = lv_ss (set_rcv_queue k a) st.
+Proof. reflexivity. Qed.
+Lemma lv_ss_set_snd_buf k st a : set_snd_buf (lv_ss k st) a = lv_ss (set_snd_buf k a) st.
+Proof. reflexivity. Qed.
+Lemma lv_ss_set_rcv_buf k st a : set_rcv_buf (lv_ss k st) a = lv_ss (set_rcv_buf k a) st.
+Proof. reflexivity. Qed.
+Lemma lv_ss_set_seq k st a b c : set_seq (lv_ss k st) a b c = lv_ss (set_seq k a b c) st.
+Proof. reflexivity. Qed.
+Lemma lv_ss_set_snd_una k st a : set_snd_una (lv_ss k st) a = lv_ss (set_snd_una k a) st.
+Proof. reflexivity. Qed.
+Lemma lv_ss_set_snd_nxt k st a : set_snd_nxt (lv_ss k st) a = lv_ss (set_snd_nxt k a) st.
+Proof. reflexivity. Qed.
+Lemma lv_ss_set_rcv_nxt k st a : set_rcv_nxt (lv_ss k st) a = lv_ss (set_rcv_nxt k a) st.
+Proof. reflexivity. Qed.
+Lemma lv_ss_set_rtt k st a b c d : set_rtt (lv_ss k st) a b c d = lv_ss (set_rtt k a b c d) st.
+Proof. reflexivity. Qed.
+Lemma lv_ss_set_cc k st a b c d : set_cc (lv_ss k st) a b c d = lv_ss (set_cc k a b c d) st.
+Proof. reflexivity. Qed.
+Lemma lv_ss_set_rmt_wnd k st a : set_rmt_wnd (lv_ss k st) a = lv_ss (set_rmt_wnd k a) st.
+Proof. reflexivity. Qed.
+Lemma lv_ss_set_probe k st a b c : set_probe (lv_ss k st) a b c = lv_ss (set_probe k a b c) st.
+Proof. reflexivity. Qed.
+Lemma lv_ss_set_probe_flags k st a : set_probe_flags (lv_ss k st) a = lv_ss (set_probe_flags k a) st.
+Proof. reflexivity. Qed.
+Lemma lv_ss_set_acklist k st a : set_acklist (lv_ss k st) a = lv_ss (set_acklist k a) st.
+Proof. reflexivity. Qed.
+Lemma lv_ss_set_config k st a b c d e f g h i j : set_config (lv_ss k st) a b c d e f g h i j = lv_ss (set_config k a b c d e f g h i j) st.
+Proof. reflexivity. Qed.
+Lemma lv_ss_set_timer k st a b c : set_timer (lv_ss k st) a b c = lv_ss (set_timer k a b c) a.
+Proof. reflexivity. Qed.
+Lemma lv_ss_ss k st st' : lv_ss (lv_ss k st) st' = lv_ss k st'.
+Proof. reflexivity. Qed.
+Global Hint Rewrite lv_ss_conv lv_ss_mtu lv_ss_mss lv_ss_snd_una lv_ss_snd_nxt lv_ss_rcv_nxt lv_ss_ssthresh lv_ss_rx_rttvar lv_ss_rx_srtt lv_ss_rx_rto lv_ss_rx_minrto lv_ss_snd_wnd lv_ss_rcv_wnd lv_ss_rmt_wnd lv_ss_cwnd lv_ss_incr lv_ss_probe lv_ss_ts_probe lv_ss_probe_wait lv_ss_interval lv_ss_ts_flush lv_ss_nodelay lv_ss_updated lv_ss_dead_link lv_ss_fastresend lv_ss_nocwnd lv_ss_stream lv_ss_snd_queue lv_ss_rcv_queue lv_ss_snd_buf lv_ss_rcv_buf lv_ss_acklist lv_ss_buflen lv_ss_state lv_ss_set_queues lv_ss_set_snd_queue lv_ss_set_rcv_queue lv_ss_set_snd_buf lv_ss_set_rcv_buf lv_ss_set_seq lv_ss_set_snd_una lv_ss_set_snd_nxt lv_ss_set_rcv_nxt lv_ss_set_rtt lv_ss_set_cc lv_ss_set_rmt_wnd lv_ss_set_probe lv_ss_set_probe_flags lv_ss_set_acklist lv_ss_set_config lv_ss_set_timer lv_ss_ss : lv_ss.
+
+(* ---- functions that only read ---- *)
+Lemma lv_ss_stream_append k st b : stream_append (lv_ss k st) b = stream_append k b.
+Proof. reflexivity. Qed.
+Lemma lv_ss_peeksize k st : peeksize (lv_ss k st) = peeksize k.
+Proof. reflexivity. Qed.
+Lemma lv_ss_wnd_unused k st : wnd_unused (lv_ss k st) = wnd_unused k.
+Proof. reflexivity. Qed.
+Lemma lv_ss_make_space k st s n : make_space (lv_ss k st) s n = make_space k s n.
+Proof. reflexivity. Qed.
+Lemma lv_ss_stage_write k st s x : stage_write (lv_ss k st) s x = stage_write k s x.
+Proof. reflexivity. Qed.
+Lemma lv_ss_max_queued k st : max_queued (lv_ss k st) = max_queued k.
+Proof. reflexivity. Qed.
+Lemma lv_ss_check k st now : check (lv_ss k st) now = check k now.
+Proof. reflexivity. Qed.
+Lemma lv_ss_h0 k st : lv_h0 (lv_ss k st) = lv_h0 k.
+Proof. reflexivity. Qed.
+Lemma lv_ss_cw k st : lv_cw (lv_ss k st) = lv_cw k.
+Proof. reflexivity. Qed.
+Lemma lv_ss_resent k st : lv_resent (lv_ss k st) = lv_resent k.
+Proof. reflexivity. Qed.
+Lemma lv_ss_ph3 k st h s f c : lv_ph3 (lv_ss k st) h s f c = lv_ph3 k h s f c.
+Proof. reflexivity. Qed.
+Lemma lv_ss_ph4 k st ft : lv_ph4 (lv_ss k st) ft = lv_ph4 k ft.
+Proof. reflexivity. Qed.
+Lemma lv_ss_flush_seg k st h r n now s a : flush_seg (lv_ss k st) h r n now s a = flush_seg k h r n now s a.
+Proof. reflexivity. Qed.
+Global Hint Rewrite lv_ss_stream_append lv_ss_peeksize lv_ss_wnd_unused lv_ss_make_space lv_ss_stage_write
+  lv_ss_max_queued lv_ss_check lv_ss_h0 lv_ss_cw lv_ss_resent lv_ss_ph3 lv_ss_ph4 lv_ss_flush_seg : lv_ss.
+
+Lemma lv_ss_flush_acks k st : forall al h s, flush_acks (lv_ss k st) h s al = flush_acks k h s al.
+Proof.
+  induction al as [|[sn ts] t IH]; intros h s; cbn [flush_acks]; [reflexivity|].
+  autorewrite with lv_ss.
+  destruct ((itimediff sn (rcv_nxt k) >=? 0) || match t with [] => true | _ :: _ => false end); [|apply IH].
+  destruct (stage_write k _ _) as [st2|w]; [apply IH|reflexivity].
+Qed.
+
+Lemma lv_ss_flush_segs k st h r n now : forall l a,
+  flush_segs (lv_ss k st) h r n now l a = flush_segs k h r n now l a.
+Proof.
+  induction l as [|s t IH]; intros a; cbn [flush_segs]; [reflexivity|].
+  rewrite lv_ss_flush_seg. destruct (flush_seg k h r n now s a) as [[s' a']|w]; [|reflexivity].
+  rewrite IH. reflexivity.
+Qed.
+Global Hint Rewrite lv_ss_flush_acks lv_ss_flush_segs : lv_ss.
+
+(* ---- functions that transform the state ---- *)
+Lemma lv_ss_do_move_ready k st : do_move_ready (lv_ss k st) = lv_ss (do_move_ready k) st.
+Proof.
+  unfold do_move_ready. autorewrite with lv_ss.
+  destruct (move_ready (rcv_buf k) (rcv_queue k) (rcv_nxt k) (rcv_wnd k)) as [[rb rq] rn].
+  autorewrite with lv_ss. reflexivity.
+Qed.
+
+Lemma lv_ss_parse_una k st una :
+  parse_una (lv_ss k st) una = (lv_ss (fst (parse_una k una)) st, snd (parse_una k una)).
+Proof.
+  unfold parse_una. autorewrite with lv_ss. destruct (una_walk una (snd_buf k)) as [l c].
+  autorewrite with lv_ss. reflexivity.
+Qed.
+
+Lemma lv_ss_shrink_buf k st : shrink_buf (lv_ss k st) = lv_ss (shrink_buf k) st.
+Proof.
+  unfold shrink_buf. cbv zeta. autorewrite with lv_ss.
+  destruct (snd_buf (set_snd_buf k (drop_acked (snd_buf k)))); autorewrite with lv_ss; reflexivity.
+Qed.
+
+Lemma lv_ss_parse_ack k st sn : parse_ack (lv_ss k st) sn = lv_ss (parse_ack k sn) st.
+Proof.
+  unfold parse_ack. autorewrite with lv_ss.
+  destruct ((itimediff sn (snd_una k) <? 0) || (itimediff sn (snd_nxt k) >=? 0)); reflexivity.
+Qed.
+
+Lemma lv_ss_parse_fastack k st sn ts :
+  parse_fastack (lv_ss k st) sn ts = (lv_ss (fst (parse_fastack k sn ts)) st, snd (parse_fastack k sn ts)).
+Proof.
+  unfold parse_fastack. autorewrite with lv_ss.
+  destruct ((itimediff sn (snd_una k) <? 0) || (itimediff sn (snd_nxt k) >=? 0)); [reflexivity|].
+  destruct (fastack_walk sn ts (fastresend k) (snd_buf k)) as [l f]. autorewrite with lv_ss. reflexivity.
+Qed.
+Global Hint Rewrite lv_ss_do_move_ready lv_ss_shrink_buf lv_ss_parse_ack : lv_ss.
+
+Lemma lv_ss_parse_data k st s :
+  parse_data (lv_ss k st) s =
+  match parse_data k s with Ok (k', f) => Ok (lv_ss k' st, f) | Panic w => Panic w end.
+Proof.
+  unfold parse_data. autorewrite with lv_ss.
+  destruct ((itimediff (s_sn s) (u32 (rcv_nxt k + rcv_wnd k)) >=? 0) || (itimediff (s_sn s) (rcv_nxt k) <? 0));
+    [reflexivity|].
+  destruct (has_sn (s_sn s) (rcv_buf k)); [reflexivity|].
+  destruct (blen (s_data s) >? c_mtuLimit); reflexivity.
+Qed.
+
+Lemma lv_ss_update_ack k st rtt : update_ack (lv_ss k st) rtt = lv_ss (update_ack k rtt) st.
+Proof.
+  unfold update_ack. autorewrite with lv_ss.
+  destruct (if rx_srtt k =? 0 then _ else _) as [srtt var]. autorewrite with lv_ss. reflexivity.
+Qed.
+
+Lemma lv_ss_input_cwnd k st una0 : input_cwnd (lv_ss k st) una0 = lv_ss (input_cwnd k una0) st.
+Proof.
+  unfold input_cwnd. autorewrite with lv_ss.
+  destruct ((nocwnd k =? 0) && (itimediff (snd_una k) una0 >? 0) && (cwnd k <? rmt_wnd k)); [|reflexivity].
+  cbv zeta. destruct (if cwnd k <? ssthresh k then _ else _) as [cw inc].
+  destruct (cw >? rmt_wnd k); autorewrite with lv_ss; reflexivity.
+Qed.
+Global Hint Rewrite lv_ss_update_ack lv_ss_input_cwnd : lv_ss.
+
+(* ---- Input ---- *)
+Definition lv_ssi (a : inp) (st : Z) : inp := mkInp (lv_ss (i_k a) st) (i_latest a) (i_rtt a) (i_flush a).
+
+Definition lv_lift_seg (st : Z) (r : res (inp * bytes) + Z) : res (inp * bytes) + Z :=
+  match r with
+  | inl (Ok (a', rest)) => inl (Ok (lv_ssi a' st, rest))
+  | inl (Panic w) => inl (Panic w)
+  | inr c => inr c
+  end.
+
+Lemma lv_ss_in_tail a st s rest regular :
+  lv_in_tail (lv_ssi a st) s rest regular = lv_lift_seg st (lv_in_tail a s rest regular).
+Proof.
+  unfold lv_in_tail. cbv zeta. cbn [lv_ssi i_k i_latest i_rtt i_flush].
+  assert (E0 : (if regular then set_rmt_wnd (lv_ss (i_k a) st) (s_wnd s) else lv_ss (i_k a) st) =
+               lv_ss (if regular then set_rmt_wnd (i_k a) (s_wnd s) else i_k a) st)
+    by (destruct regular; reflexivity).
+  rewrite E0, lv_ss_parse_una.
+  destruct (parse_una (if regular then set_rmt_wnd (i_k a) (s_wnd s) else i_k a) (s_una s)) as [k1 cnt].
+  cbn [fst snd]. autorewrite with lv_ss.
+  destruct (s_cmd s =? c_IKCP_CMD_ACK).
+  { rewrite lv_ss_parse_fastack.
+    destruct (parse_fastack (parse_ack (shrink_buf k1) (s_sn s)) (s_sn s) (s_ts s)) as [k2 f].
+    cbn [fst snd]. autorewrite with lv_ss. reflexivity. }
+  destruct (s_cmd s =? c_IKCP_CMD_PUSH).
+  { destruct (itimediff (s_sn s) (u32 (rcv_nxt (shrink_buf k1) + rcv_wnd (shrink_buf k1))) <? 0); [|reflexivity].
+    destruct (itimediff (s_sn s) (rcv_nxt (set_acklist (shrink_buf k1) (acklist (shrink_buf k1) ++ [(s_sn s, s_ts s)]))) >=? 0);
+      [|reflexivity].
+    rewrite lv_ss_parse_data. destruct (parse_data _ _) as [[k2 f]|w]; reflexivity. }
+  destruct (s_cmd s =? c_IKCP_CMD_WASK); reflexivity.
+Qed.
+
+Definition lv_hdr_of (data : bytes) : seg :=
+  mkSeg (rd32 data) (nth 4 data 0) (nth 5 data 0) (rd16 (skipn 6 data)) (rd32 (skipn 8 data))
+        (rd32 (skipn 12 data)) (rd32 (skipn 16 data)) 0 0 0 0 0
+        (take (rd32 (skipn 20 data)) (skipn 24 data)).
+
+(* input_seg on arbitrary bytes: three checks, then the command-specific part *)
+Lemma lv_input_seg_gen a data regular :
+  input_seg a data regular =
+  let s := lv_hdr_of data in
+  let len := rd32 (skipn 20 data) in
+  if negb (s_conv s =? conv (i_k a)) then inr (-1)
+  else if (blen (skipn 24 data) <? len) || (len >? c_mtuLimit) then inr (-2)
+  else if negb ((s_cmd s =? c_IKCP_CMD_PUSH) || (s_cmd s =? c_IKCP_CMD_ACK) ||
+                (s_cmd s =? c_IKCP_CMD_WASK) || (s_cmd s =? c_IKCP_CMD_WINS)) then inr (-3)
+  else lv_in_tail a s (drop len (skipn 24 data)) regular.
+Proof. unfold input_seg, lv_in_tail, lv_hdr_of. cbv zeta. lv_segf. reflexivity. Qed.
+
+Lemma lv_ss_input_seg a st data regular :
+  input_seg (lv_ssi a st) data regular = lv_lift_seg st (input_seg a data regular).
+Proof.
+  rewrite !lv_input_seg_gen. cbv zeta. cbn [lv_ssi i_k]. autorewrite with lv_ss.
+  destruct (negb (s_conv (lv_hdr_of data) =? conv (i_k a))); [reflexivity|].
+  destruct ((blen (skipn 24 data) <? rd32 (skipn 20 data)) || (rd32 (skipn 20 data) >? c_mtuLimit)); [reflexivity|].
+  destruct (negb _); [reflexivity|].
+  apply lv_ss_in_tail.
+Qed.
+
+Lemma lv_ss_input_loop regular st : forall fuel a data,
+  input_loop fuel (lv_ssi a st) data regular =
+  match input_loop fuel a data regular with
+  | Ok (a', e) => Ok (lv_ssi a' st, e)
+  | Panic w => Panic w
+  end.
+Proof.
+  induction fuel as [|f IH]; intros a data; cbn [input_loop]; [reflexivity|].
+  destruct (blen data <? c_IKCP_OVERHEAD); [reflexivity|].
+  rewrite lv_ss_input_seg.
+  destruct (input_seg a data regular) as [[[a' rest]|w]|c]; cbn [lv_lift_seg]; [apply IH|reflexivity|reflexivity].
+Qed.
+
+Lemma lv_ss_input_pre k st data regular nd now :
+  input_pre (lv_ss k st) data regular nd now =
+  match input_pre k data regular nd now with
+  | Ok (k', c, fr) => Ok (lv_ss k' st, c, fr)
+  | Panic w => Panic w
+  end.
+Proof.
+  unfold input_pre. autorewrite with lv_ss.
+  destruct (blen data <? c_IKCP_OVERHEAD); [reflexivity|].
+  change (mkInp (lv_ss k st) 0 false false) with (lv_ssi (mkInp k 0 false false) st).
+  rewrite lv_ss_input_loop.
+  destruct (input_loop (S (length data / 24)) (mkInp k 0 false false) data regular) as [[a e]|w]; [|reflexivity].
+  destruct e as [|code]; [|reflexivity].
+  cbn [lv_ssi i_k i_latest i_rtt i_flush].
+  assert (E : (if i_rtt a && regular && (itimediff now (i_latest a) >=? 0)
+               then update_ack (lv_ss (i_k a) st) (itimediff now (i_latest a)) else lv_ss (i_k a) st) =
+              lv_ss (if i_rtt a && regular && (itimediff now (i_latest a) >=? 0)
+                     then update_ack (i_k a) (itimediff now (i_latest a)) else i_k a) st).
+  { destruct (i_rtt a && regular && (itimediff now (i_latest a) >=? 0)); autorewrite with lv_ss; reflexivity. }
+  cbv zeta. rewrite E. autorewrite with lv_ss.
+  destruct (i_flush a); [reflexivity|].
+  destruct (Z.of_nat (length (acklist _)) >=? mtu _ / c_IKCP_OVERHEAD); [reflexivity|].
+  destruct (nd && _); reflexivity.
+Qed.
+
+(* ---- Send / Recv / configuration ---- *)
+Lemma lv_ss_send k st b :
+  send (lv_ss k st) b =
+  match send k b with Ok (k', r) => Ok (lv_ss k' st, r) | Panic w => Panic w end.
+Proof.
+  unfold send. autorewrite with lv_ss.
+  destruct (blen b =? 0); [reflexivity|].
+  destruct (if stream k =? 0 then Ok (Some (snd_queue k, b)) else stream_append k b) as [[[q1 b1]|]|w];
+    [|reflexivity|reflexivity].
+  cbv zeta. autorewrite with lv_ss.
+  destruct (negb (stream k =? 0) && (blen b1 =? 0)); [reflexivity|].
+  destruct (frag_count (blen b1) (mss k) >? 255); [reflexivity|].
+  destruct (fragment _ _ _ _ _ _) as [segs|w]; [|reflexivity].
+  autorewrite with lv_ss. reflexivity.
+Qed.
+
+Lemma lv_ss_recv k st n :
+  recv (lv_ss k st) n = let '(k', r, d) := recv k n in (lv_ss k' st, r, d).
+Proof.
+  unfold recv. cbv zeta. autorewrite with lv_ss.
+  destruct (peeksize k <? 0); [reflexivity|].
+  destruct (peeksize k >? n); [reflexivity|].
+  destruct (pop_msg (rcv_queue k)) as [d rq]. autorewrite with lv_ss.
+  destruct ((qlen (rcv_queue (do_move_ready (set_rcv_queue k rq))) <? rcv_wnd (do_move_ready (set_rcv_queue k rq)))
+            && (qlen (rcv_queue k) >=? rcv_wnd k)); autorewrite with lv_ss; reflexivity.
+Qed.
+
+Lemma lv_ss_set_mtu k st m :
+  set_mtu (lv_ss k st) m = let '(k', r) := set_mtu k m in (lv_ss k' st, r).
+Proof.
+  unfold set_mtu. autorewrite with lv_ss.
+  destruct ((m <=? c_IKCP_OVERHEAD) || (m >? c_mtuLimit)); [reflexivity|].
+  destruct (max_queued k >? m - c_IKCP_OVERHEAD); reflexivity.
+Qed.
+
+Lemma lv_ss_set_nodelay k st nd iv rs nc :
+  set_nodelay (lv_ss k st) nd iv rs nc = lv_ss (set_nodelay k nd iv rs nc) st.
+Proof.
+  unfold set_nodelay. autorewrite with lv_ss.
+  destruct (if nd >=? 0 then _ else _) as [ndv minrto]. reflexivity.
+Qed.
+
+(* ---- flush ---- *)
+Lemma lv_ss_ph1 k st ft :
+  lv_ph1 (lv_ss k st) ft =
+  match lv_ph1 k ft with Ok (h, s, k1) => Ok (h, s, lv_ss k1 st) | Panic w => Panic w end.
+Proof.
+  unfold lv_ph1. autorewrite with lv_ss.
+  destruct ((ft =? FLUSH_ACKONLY) || (ft =? FLUSH_FULL)); [|reflexivity].
+  destruct (flush_acks k (lv_h0 k) (mkStage [] []) (acklist k)) as [[h s]|w]; reflexivity.
+Qed.
+
+Lemma lv_ss_ph2 k st now : lv_ph2 (lv_ss k st) now = lv_ss (lv_ph2 k now) st.
+Proof.
+  unfold lv_ph2. autorewrite with lv_ss.
+  destruct (rmt_wnd k =? 0); [|reflexivity].
+  destruct (probe_wait k =? 0); [reflexivity|].
+  destruct (itimediff now (ts_probe k) >=? 0); reflexivity.
+Qed.
+
+Lemma lv_ss_k4 k st sq sb nxt : lv_k4 (lv_ss k st) sq sb nxt = lv_ss (lv_k4 k sq sb nxt) st.
+Proof. reflexivity. Qed.
+
+Lemma lv_ss_ph5 k st h ft ns now s : lv_ph5 (lv_ss k st) h ft ns now s = lv_ph5 k h ft ns now s.
+Proof. unfold lv_ph5. cbv zeta. autorewrite with lv_ss. reflexivity. Qed.
+
+Lemma lv_ss_k5 k st sb' a :
+  lv_k5 (lv_ss k st) sb' a = lv_ss (lv_k5 k sb' a) (if f_dead a then 4294967295 else st).
+Proof. unfold lv_k5. cbv zeta. destruct (f_dead a); reflexivity. Qed.
+
+Lemma lv_ss_ph6 k st a cw r : lv_ph6 (lv_ss k st) a cw r = lv_ss (lv_ph6 k a cw r) st.
+Proof.
+  unfold lv_ph6. autorewrite with lv_ss. destruct (nocwnd k =? 0); [|reflexivity].
+  cbv zeta. destruct (f_change a >? 0); destruct (f_lost a >? 0); autorewrite with lv_ss;
+    match goal with |- context [cwnd ?x <? 1] => destruct (cwnd x <? 1) end; autorewrite with lv_ss; reflexivity.
+Qed.
+
+Lemma lv_ss_flush k st ft now :
+  exists st', flush (lv_ss k st) ft now =
+  match flush k ft now with Ok (k', nx, o) => Ok (lv_ss k' st', nx, o) | Panic w => Panic w end.
+Proof.
+  rewrite !lv_unfold. rewrite lv_ss_ph1.
+  destruct (lv_ph1 k ft) as [[[h1 st1] k1]|w]; [|exists st; reflexivity].
+  cbv zeta. rewrite lv_ss_ph2, lv_ss_ph3.
+  destruct (lv_ph3 (lv_ph2 k1 now) h1 st1 c_IKCP_ASK_SEND c_IKCP_CMD_WASK) as [st2|w]; [|exists st; reflexivity].
+  rewrite lv_ss_ph3.
+  destruct (lv_ph3 (lv_ph2 k1 now) h1 st2 c_IKCP_ASK_TELL c_IKCP_CMD_WINS) as [st3|w]; [|exists st; reflexivity].
+  rewrite lv_ss_set_probe_flags, lv_ss_ph4.
+  destruct (lv_ph4 (set_probe_flags (lv_ph2 k1 now) 0) ft) as [[[sq sb] nxt] ns].
+  rewrite lv_ss_k4, lv_ss_ph5.
+  destruct (lv_ph5 (lv_k4 (set_probe_flags (lv_ph2 k1 now) 0) sq sb nxt) h1 ft ns now st3) as [[sb' a]|w];
+    [|exists st; reflexivity].
+  exists (if f_dead a then 4294967295 else st).
+  rewrite lv_ss_k5, lv_ss_ph6, lv_ss_cw, lv_ss_resent. reflexivity.
+Qed.
+
+Lemma lv_ss_input k st data regular nd now :
+  exists st', input (lv_ss k st) data regular nd now =
+  match input k data regular nd now with Ok (k', c, o) => Ok (lv_ss k' st', c, o) | Panic w => Panic w end.
+Proof.
+  unfold input. rewrite lv_ss_input_pre.
+  destruct (input_pre k data regular nd now) as [[[k1 c] fr]|w]; [|exists st; reflexivity].
+  destruct fr.
+  - exists st; reflexivity.
+  - destruct (lv_ss_flush k1 st FLUSH_ACKONLY now) as (st' & E). exists st'. rewrite E.
+    destruct (flush k1 FLUSH_ACKONLY now) as [[[k2 nx] o]|w]; reflexivity.
+  - destruct (lv_ss_flush k1 st FLUSH_FULL now) as (st' & E). exists st'. rewrite E.
+    destruct (flush k1 FLUSH_FULL now) as [[[k2 nx] o]|w]; reflexivity.
+Qed.
+
+Definition lv_upd_tail (k : kcp) (slap now : Z) : res (kcp * list bytes) :=
+  if slap >=? 0 then
+    let tsf := u32 (ts_flush k + interval k) in
+    let tsf := if itimediff now tsf >=? 0 then u32 (now + interval k) else tsf in
+    match flush (set_timer k (state k) tsf (updated k)) FLUSH_FULL now with
+    | Ok (k', _, o) => Ok (k', o) | Panic w => Panic w end
+  else Ok (k, []).
+
+Lemma lv_update_unfold k now :
+  update k now =
+  let k1 := if updated k =? 0 then set_timer k (state k) now 1 else k in
+  let slap := itimediff now (ts_flush k1) in
+  if (slap >=? 10000) || (slap <? -10000)
+  then lv_upd_tail (set_timer k1 (state k1) now (updated k1)) 0 now
+  else lv_upd_tail k1 slap now.
+Proof.
+  unfold update, lv_upd_tail. cbv zeta.
+  destruct ((itimediff now (ts_flush (if updated k =? 0 then set_timer k (state k) now 1 else k)) >=? 10000)
+            || (itimediff now (ts_flush (if updated k =? 0 then set_timer k (state k) now 1 else k)) <? -10000));
+    reflexivity.
+Qed.
+
+Lemma lv_ss_timer_irrel k st a b t u : lv_ss (set_timer k a t u) st = lv_ss (set_timer k b t u) st.
+Proof. reflexivity. Qed.
+
+Lemma lv_ss_upd_tail k st slap now :
+  exists st', lv_upd_tail (lv_ss k st) slap now =
+  match lv_upd_tail k slap now with Ok (k', o) => Ok (lv_ss k' st', o) | Panic w => Panic w end.
+Proof.
+  unfold lv_upd_tail. destruct (slap >=? 0); [|exists st; reflexivity].
+  cbv zeta. autorewrite with lv_ss.
+  set (tsf := if itimediff now (u32 (ts_flush k + interval k)) >=? 0 then u32 (now + interval k)
+              else u32 (ts_flush k + interval k)).
+  rewrite (lv_ss_timer_irrel k st st (state k)).
+  destruct (lv_ss_flush (set_timer k (state k) tsf (updated k)) st FLUSH_FULL now) as (st' & E).
+  exists st'. rewrite E.
+  destruct (flush (set_timer k (state k) tsf (updated k)) FLUSH_FULL now) as [[[k2 nx] o]|w]; reflexivity.
+Qed.
+
+Lemma lv_ss_update k st now :
+  exists st', update (lv_ss k st) now =
+  match update k now with Ok (k', o) => Ok (lv_ss k' st', o) | Panic w => Panic w end.
+Proof.
+  rewrite !lv_update_unfold. cbv zeta. autorewrite with lv_ss.
+  assert (E1 : (if updated k =? 0 then lv_ss (set_timer k st now 1) st else lv_ss k st) =
+               lv_ss (if updated k =? 0 then set_timer k (state k) now 1 else k) st)
+    by (destruct (updated k =? 0); reflexivity).
+  rewrite E1. set (k1 := if updated k =? 0 then set_timer k (state k) now 1 else k).
+  autorewrite with lv_ss.
+  destruct ((itimediff now (ts_flush k1) >=? 10000) || (itimediff now (ts_flush k1) <? -10000)).
+  - rewrite (lv_ss_timer_irrel k1 st st (state k1)). apply lv_ss_upd_tail.
+  - apply lv_ss_upd_tail.
+Qed.
+
+Lemma lv_ss_step k st o :
+  exists st', step (lv_ss k st) o =
+  match step k o with Ok (k', x) => Ok (lv_ss k' st', x) | Panic w => Panic w end.
+Proof.
+  destruct o as [b|n|d reg nd now|full now|now|now|m|nd iv rs nc]; cbn [step].
+  - exists st. rewrite lv_ss_send. destruct (send k b) as [[k' r]|w]; reflexivity.
+  - exists st. rewrite lv_ss_recv. destruct (recv k n) as [[k' r] d]. reflexivity.
+  - destruct (lv_ss_input k st d reg nd now) as (st' & E). exists st'. rewrite E.
+    destruct (input k d reg nd now) as [[[k' r] o]|w]; reflexivity.
+  - destruct (lv_ss_flush k st (if full then FLUSH_FULL else FLUSH_ACKONLY) now) as (st' & E). exists st'. rewrite E.
+    destruct (flush k _ now) as [[[k' nx] o]|w]; reflexivity.
+  - destruct (lv_ss_update k st now) as (st' & E). exists st'. rewrite E.
+    destruct (update k now) as [[k' o]|w]; reflexivity.
+  - exists st. rewrite lv_ss_check. reflexivity.
+  - exists st. rewrite lv_ss_set_mtu. destruct (set_mtu k m) as [k' r]. reflexivity.
+  - exists st. rewrite lv_ss_set_nodelay. reflexivity.
+Qed.
+
+(* ------------------------------------------------------------------ *)
+(* 6. probe_wait is touched by flush only                              *)
+(* ------------------------------------------------------------------ *)
+Lemma lv_pw_do_move_ready k : probe_wait (do_move_ready k) = probe_wait k.
+Proof.
+  unfold do_move_ready.
+  destruct (move_ready (rcv_buf k) (rcv_queue k) (rcv_nxt k) (rcv_wnd k)) as [[rb rq] rn]. reflexivity.
+Qed.
+
+Lemma lv_pw_parse_una k una : probe_wait (fst (parse_una k una)) = probe_wait k.
+Proof. unfold parse_una. destruct (una_walk una (snd_buf k)) as [l c]. reflexivity. Qed.
+
+Lemma lv_pw_shrink_buf k : probe_wait (shrink_buf k) = probe_wait k.
+Proof.
+  unfold shrink_buf. cbv zeta.
+  destruct (snd_buf (set_snd_buf k (drop_acked (snd_buf k)))); reflexivity.
+Qed.
+
+Lemma lv_pw_parse_ack k sn : probe_wait (parse_ack k sn) = probe_wait k.
+Proof.
+  unfold parse_ack.
+  destruct ((itimediff sn (snd_una k) <? 0) || (itimediff sn (snd_nxt k) >=? 0)); reflexivity.
+Qed.
+
+Lemma lv_pw_parse_fastack k sn ts : probe_wait (fst (parse_fastack k sn ts)) = probe_wait k.
+Proof.
+  unfold parse_fastack.
+  destruct ((itimediff sn (snd_una k) <? 0) || (itimediff sn (snd_nxt k) >=? 0)); [reflexivity|].
+  destruct (fastack_walk sn ts (fastresend k) (snd_buf k)) as [l f]. reflexivity.
+Qed.
+
+Lemma lv_pw_parse_data k s k' f : parse_data k s = Ok (k', f) -> probe_wait k' = probe_wait k.
+Proof.
+  unfold parse_data. intros H.
+  destruct ((itimediff (s_sn s) (u32 (rcv_nxt k + rcv_wnd k)) >=? 0) || (itimediff (s_sn s) (rcv_nxt k) <? 0)).
+  { inversion H; reflexivity. }
+  destruct (has_sn (s_sn s) (rcv_buf k)).
+  { inversion H; subst. apply lv_pw_do_move_ready. }
+  destruct (blen (s_data s) >? c_mtuLimit); [discriminate|].
+  inversion H; subst. rewrite lv_pw_do_move_ready. reflexivity.
+Qed.
+
+Lemma lv_pw_update_ack k rtt : probe_wait (update_ack k rtt) = probe_wait k.
+Proof. unfold update_ack. destruct (if rx_srtt k =? 0 then _ else _) as [srtt var]. reflexivity. Qed.
+
+Lemma lv_pw_input_cwnd k una0 : probe_wait (input_cwnd k una0) = probe_wait k.
+Proof.
+  unfold input_cwnd.
+  destruct ((nocwnd k =? 0) && (itimediff (snd_una k) una0 >? 0) && (cwnd k <? rmt_wnd k)); [|reflexivity].
+  cbv zeta. destruct (if cwnd k <? ssthresh k then _ else _) as [cw inc].
+  destruct (cw >? rmt_wnd k); reflexivity.
+Qed.
+
+Lemma lv_pw_pre a s regular : probe_wait (lv_pre a s regular) = probe_wait (i_k a).
+Proof. unfold lv_pre. rewrite lv_pw_shrink_buf, lv_pw_parse_una. destruct regular; reflexivity. Qed.
+
+Lemma lv_pw_in_tail a s rest regular a' r :
+  lv_in_tail a s rest regular = inl (Ok (a', r)) -> probe_wait (i_k a') = probe_wait (i_k a).
+Proof.
+  rewrite lv_in_tail_pre. cbv zeta. intros H. pose proof (lv_pw_pre a s regular) as P.
+  destruct (s_cmd s =? c_IKCP_CMD_ACK).
+  { pose proof (lv_pw_parse_fastack (parse_ack (lv_pre a s regular) (s_sn s)) (s_sn s) (s_ts s)) as P2.
+    destruct (parse_fastack (parse_ack (lv_pre a s regular) (s_sn s)) (s_sn s) (s_ts s)) as [k2 f].
+    cbn [fst] in P2. inversion H; subst a' r. cbn [i_k].
+    rewrite lv_pw_shrink_buf, P2, lv_pw_parse_ack. exact P. }
+  destruct (s_cmd s =? c_IKCP_CMD_PUSH).
+  { destruct (itimediff (s_sn s) (u32 (rcv_nxt (lv_pre a s regular) + rcv_wnd (lv_pre a s regular))) <? 0);
+      [|inversion H; subst a' r; exact P].
+    destruct (itimediff (s_sn s) (rcv_nxt (set_acklist (lv_pre a s regular) (acklist (lv_pre a s regular) ++ [(s_sn s, s_ts s)]))) >=? 0);
+      [|inversion H; subst a' r; exact P].
+    destruct (parse_data _ _) as [[k2 f]|w] eqn:Ep; [|discriminate].
+    inversion H; subst a' r. cbn [i_k]. rewrite (lv_pw_parse_data _ _ _ _ Ep). exact P. }
+  destruct (s_cmd s =? c_IKCP_CMD_WASK); inversion H; subst a' r; exact P.
+Qed.
+
+Lemma lv_pw_input_seg a data regular a' r :
+  input_seg a data regular = inl (Ok (a', r)) -> probe_wait (i_k a') = probe_wait (i_k a).
+Proof.
+  rewrite lv_input_seg_gen. cbv zeta.
+  destruct (negb (s_conv (lv_hdr_of data) =? conv (i_k a))); [discriminate|].
+  destruct ((blen (skipn 24 data) <? rd32 (skipn 20 data)) || (rd32 (skipn 20 data) >? c_mtuLimit)); [discriminate|].
+  destruct (negb _); [discriminate|].
+  apply lv_pw_in_tail.
+Qed.
+
+Lemma lv_pw_input_loop regular : forall fuel a data a' e,
+  input_loop fuel a data regular = Ok (a', e) -> probe_wait (i_k a') = probe_wait (i_k a).
+Proof.
+  induction fuel as [|f IH]; intros a data a' e H; cbn [input_loop] in H.
+  - inversion H; reflexivity.
+  - destruct (blen data <? c_IKCP_OVERHEAD); [inversion H; reflexivity|].
+    destruct (input_seg a data regular) as [[[a1 rest]|w]|c] eqn:Es.
+    + rewrite (IH _ _ _ _ H). eapply lv_pw_input_seg. exact Es.
+    + discriminate.
+    + inversion H; reflexivity.
+Qed.
+
+Lemma lv_pw_input_pre k data regular nd now k' c fr :
+  input_pre k data regular nd now = Ok (k', c, fr) -> probe_wait k' = probe_wait k.
+Proof.
+  unfold input_pre. intros H.
+  destruct (blen data <? c_IKCP_OVERHEAD); [inversion H; reflexivity|].
+  destruct (input_loop (S (length data / 24)) (mkInp k 0 false false) data regular) as [[a e]|w] eqn:El; [|discriminate].
+  apply lv_pw_input_loop in El. cbn [i_k] in El.
+  destruct e as [|code]; [|inversion H; subst; exact El].
+  cbv zeta in H.
+  assert (P : probe_wait (input_cwnd (if i_rtt a && regular && (itimediff now (i_latest a) >=? 0)
+                                      then update_ack (i_k a) (itimediff now (i_latest a)) else i_k a) (snd_una k))
+              = probe_wait k).
+  { rewrite lv_pw_input_cwnd. destruct (i_rtt a && regular && (itimediff now (i_latest a) >=? 0));
+      [rewrite lv_pw_update_ack|]; exact El. }
+  destruct (i_flush a); [inversion H; subst; exact P|].
+  destruct (Z.of_nat (length (acklist _)) >=? mtu _ / c_IKCP_OVERHEAD); [inversion H; subst; exact P|].
+  destruct (nd && _); inversion H; subst; exact P.
+Qed.
+
+Lemma lv_pw_send k b k' r : send k b = Ok (k', r) -> probe_wait k' = probe_wait k.
+Proof.
+  unfold send. intros H.
+  destruct (blen b =? 0); [inversion H; reflexivity|].
+  destruct (if stream k =? 0 then Ok (Some (snd_queue k, b)) else stream_append k b) as [[[q1 b1]|]|w];
+    [|inversion H; reflexivity|discriminate].
+  cbv zeta in H.
+  destruct (negb (stream k =? 0) && (blen b1 =? 0)); [inversion H; reflexivity|].
+  destruct (frag_count (blen b1) (mss k) >? 255); [inversion H; reflexivity|].
+  destruct (fragment _ _ _ _ _ _) as [segs|w]; [|discriminate].
+  inversion H; reflexivity.
+Qed.
+
+Lemma lv_pw_recv k n k' r d : recv k n = (k', r, d) -> probe_wait k' = probe_wait k.
+Proof.
+  unfold recv. cbv zeta. intros H.
+  destruct (peeksize k <? 0); [inversion H; reflexivity|].
+  destruct (peeksize k >? n); [inversion H; reflexivity|].
+  destruct (pop_msg (rcv_queue k)) as [d0 rq].
+  destruct (_ && _); inversion H; subst; ksimpl; rewrite lv_pw_do_move_ready; reflexivity.
+Qed.
+
+Lemma lv_pw_set_mtu k m : probe_wait (fst (set_mtu k m)) = probe_wait k.
+Proof.
+  unfold set_mtu. destruct ((m <=? c_IKCP_OVERHEAD) || (m >? c_mtuLimit)); [reflexivity|].
+  destruct (max_queued k >? m - c_IKCP_OVERHEAD); reflexivity.
+Qed.
+
+Lemma lv_pw_set_nodelay k nd iv rs nc : probe_wait (set_nodelay k nd iv rs nc) = probe_wait k.
+Proof. unfold set_nodelay. destruct (if nd >=? 0 then _ else _) as [ndv minrto]. reflexivity. Qed.
+
+(* the probe wait is 0 (no probing) or within [500 ms, 120 s] *)
+Definition lv_probe_inv (k : kcp) : Prop := probe_wait k = 0 \/ 500 <= probe_wait k <= 120000.
+
+Lemma lv_pi_ph2 k now : lv_probe_inv k -> lv_probe_inv (lv_ph2 k now).
+Proof.
+  unfold lv_probe_inv, lv_ph2. intros H.
+  destruct (rmt_wnd k =? 0); [|left; reflexivity].
+  destruct (probe_wait k =? 0) eqn:E0; [right; ksimpl; unfold c_IKCP_PROBE_INIT; lia|]. lv_b2z.
+  destruct (itimediff now (ts_probe k) >=? 0); [|exact H].
+  cbv zeta. ksimpl. right. unfold c_IKCP_PROBE_INIT, c_IKCP_PROBE_LIMIT.
+  destruct H as [H|H]; [contradiction|].
+  destruct (probe_wait k <? 500) eqn:E1; lv_b2z; [lia|].
+  assert (Eu : u32 (probe_wait k + probe_wait k / 2) = probe_wait k + probe_wait k / 2).
+  { apply u32_id. unfold W32. lia. }
+  rewrite Eu. destruct (probe_wait k + probe_wait k / 2 >? 120000) eqn:E2; lv_b2z; lia.
+Qed.
+
+Lemma lv_pi_flush k ft now k' nx o : flush k ft now = Ok (k', nx, o) -> lv_probe_inv k -> lv_probe_inv k'.
+Proof.
+  intros H Hp.
+  destruct (lv_flush_spec _ _ _ _ _ _ H)
+    as (h1 & sq & sb & nxt & ns & sb' & _ & _ & _ & _ & _ & _ & _ & _ & Fpw & _).
+  pose proof (lv_pi_ph2 k now Hp) as H2. unfold lv_probe_inv in *. rewrite Fpw. exact H2.
+Qed.
+
+Lemma lv_pi_upd_tail k slap now k' o :
+  lv_upd_tail k slap now = Ok (k', o) -> lv_probe_inv k -> lv_probe_inv k'.
+Proof.
+  unfold lv_upd_tail. intros H Hp. destruct (slap >=? 0); [|inversion H; subst; exact Hp].
+  cbv zeta in H.
+  match type of H with context [flush ?x FLUSH_FULL now] =>
+    destruct (flush x FLUSH_FULL now) as [[[k2 nx] o2]|w] eqn:Ef; [|discriminate] end.
+  inversion H; subst k' o. eapply lv_pi_flush; [exact Ef|]. exact Hp.
+Qed.
+
+Lemma lv_pi_step k o k' x : step k o = Ok (k', x) -> lv_probe_inv k -> lv_probe_inv k'.
+Proof.
+  destruct o as [b|n|d reg nd now|full now|now|now|m|nd iv rs nc]; cbn [step]; intros H Hp.
+  - destruct (send k b) as [[k1 r]|w] eqn:E; [|discriminate]. inversion H; subst k' x.
+    unfold lv_probe_inv in *. rewrite (lv_pw_send _ _ _ _ E). exact Hp.
+  - destruct (recv k n) as [[k1 r] d] eqn:E. inversion H; subst k' x.
+    unfold lv_probe_inv in *. rewrite (lv_pw_recv _ _ _ _ _ E). exact Hp.
+  - unfold input in H. destruct (input_pre k d reg nd now) as [[[k1 c] fr]|w] eqn:E; [|discriminate].
+    assert (Hp1 : lv_probe_inv k1) by (unfold lv_probe_inv in *; rewrite (lv_pw_input_pre _ _ _ _ _ _ _ _ E); exact Hp).
+    destruct fr.
+    + inversion H; subst k' x. exact Hp1.
+    + destruct (flush k1 FLUSH_ACKONLY now) as [[[k2 nx] o]|w] eqn:Ef; [|discriminate].
+      inversion H; subst k' x. eapply lv_pi_flush; eassumption.
+    + destruct (flush k1 FLUSH_FULL now) as [[[k2 nx] o]|w] eqn:Ef; [|discriminate].
+      inversion H; subst k' x. eapply lv_pi_flush; eassumption.
+  - destruct (flush k _ now) as [[[k2 nx] o]|w] eqn:Ef; [|discriminate].
+    inversion H; subst k' x. eapply lv_pi_flush; eassumption.
+  - destruct (update k now) as [[k2 o]|w] eqn:Eu; [|discriminate]. inversion H; subst k' x.
+    rewrite lv_update_unfold in Eu. cbv zeta in Eu.
+    destruct (_ || _) in Eu; (eapply lv_pi_upd_tail; [exact Eu|]);
+      destruct (updated k =? 0); exact Hp.
+  - inversion H; subst k' x. exact Hp.
+  - destruct (set_mtu k m) as [k1 r] eqn:E. inversion H; subst k' x.
+    unfold lv_probe_inv in *. pose proof (lv_pw_set_mtu k m) as P. rewrite E in P. cbn [fst] in P. rewrite P. exact Hp.
+  - inversion H; subst k' x. unfold lv_probe_inv in *. rewrite lv_pw_set_nodelay. exact Hp.
+Qed.
+
+Lemma lv_pi_run : forall ops k k' outs, run k ops = Some (k', outs) -> lv_probe_inv k -> lv_probe_inv k'.
+Proof.
+  induction ops as [|o t IH]; intros k k' outs H Hp; cbn [run] in H.
+  - inversion H; subst. exact Hp.
+  - destruct (step k o) as [[k1 x]|w] eqn:Es; [|discriminate].
+    destruct (run k1 t) as [[k2 xs]|] eqn:Er; [|discriminate].
+    inversion H; subst k' outs. eapply IH; [exact Er|]. eapply lv_pi_step; eassumption.
 Qed.
